@@ -19,7 +19,7 @@ EXCL = {}
 # affect their oracle; a new finding added here reaches every engine at once.
 # KF-pad-wide advertises a larger shape than it produces: whatever is stacked on it (a contraction, a
 # concatenate) fails to unify chunks or produces blocks of other shapes than advertised
-RAISES = ("KF-layout-drift-over-shuffle", "KF-minmax-empty", "KF-setitem-int-with-negstep", "KF-layout-drift-over-window-reduction", "KF-pad-wide", "KF-swv-over-higher-order-diff", "KF-reshape-zero-size")  # graph build / compute raises, graph not closed, or wrong block shapes
+RAISES = ("KF-layout-drift-over-shuffle", "KF-minmax-empty", "KF-setitem-int-with-negstep", "KF-layout-drift-over-window-reduction", "KF-pad-wide", "KF-swv-over-higher-order-diff", "KF-reshape-zero-size", "KF-ufunc-where-0d-out")  # graph build / compute raises, graph not closed, or wrong block shapes
 VALUES = ("KF-tensordot-int-dtype", "KF-argext-ties-axis-none")  # computes, but differs from NumPy
 ALL = RAISES + VALUES
 
@@ -127,6 +127,17 @@ def _swv_over_diff(prog, vals):
         return reaches(v, src, seen)
 
     return any(s["op"] in ("sliding_window_view", "swv_reduce") and any(depends(a, set()) for a in s["args"]) for s in prog["stmts"])
+
+
+@excl("KF-ufunc-where-0d-out")
+def _where_out_0d(prog, vals):
+    """An index that reduces the result of ufunc(..., out=, where=) to 0-d (listed for C11: the pushed-down
+    0-d out= makes the ufunc return a scalar)."""
+    L = len(prog["leaves"])
+    for k, s in enumerate(prog["stmts"]):
+        if s["op"] == "getitem" and vals[L + k].ndim == 0 and "add_where_out" in ancestors_ops(prog, s["args"][0]):
+            return True
+    return False
 
 
 @excl("KF-reshape-zero-size")
